@@ -223,6 +223,16 @@ theorem revOK_reachable {st : St} (hr : Reachable st) : RevOK st.hc := by
   obtain ⟨t, ops, e⟩ := hr
   rw [e]; exact revOK_run revOK_empty ops
 
+/-- **Capability decisions never depend on the lookup caches** (the C03 clause): in every
+reachable state, `ircdb.checkCapability` as the bot runs it — recognition through
+`UsersDictionary.getUser` with both caches, hit re-validation and duplicate removal, then the
+`secure` re-check and the decision stages — returns exactly what the cache-free
+`C03.Db.checkCapability` returns on the current records at the current time (to which
+`C03.check_eq_spec` applies). -/
+theorem checkCapability_cache_free {st : St} (hr : Reachable st) (h cap : Str) (fl : Flags) :
+    (checkCapabilityS st h cap fl).2 = st.db.checkCapability st.now h cap fl :=
+  checkCapabilityS_eq (reachable_inv hr) h cap fl
+
 /-! ## the glob matcher (`C04/Glob.lean`)
 * `glob_iff_matches : glob p h = true ↔ Matches p h` — the matcher computes the declarative
   relation (`*` any run without LF, `?` one character, rfc1459 pairs and ASCII case collapsed,
